@@ -688,6 +688,21 @@ void substitute_type_parameters(
     });
 }
 
+// return_types is not cloned (see clone_ast_node): rebuild the declared return
+// type from the substituted return type name, so that the result of an
+// instantiated function is range-checked like that of a hand-written one
+static void rebuild_declared_return_type(const ASTNode *generic,
+                                         ASTNode *instantiated) {
+    if (!generic->return_types.empty() &&
+        !instantiated->return_type_name.empty()) {
+        TypeInfo declared = resolve_substituted_type_info(
+            instantiated->return_type_name, TYPE_UNKNOWN);
+        if (declared != TYPE_UNKNOWN) {
+            instantiated->return_types.assign(1, declared);
+        }
+    }
+}
+
 // ジェネリック関数をインスタンス化
 std::unique_ptr<ASTNode>
 instantiate_generic_function(const ASTNode *func,
@@ -718,22 +733,28 @@ instantiate_generic_function(const ASTNode *func,
     // 型パラメータを置換
     substitute_type_parameters(instantiated.get(), type_map);
 
-    // return_types is not cloned (see clone_ast_node): rebuild the declared
-    // return type from the substituted return type name, so that the result of
-    // an instantiated function is range-checked like that of a hand-written one
-    if (!func->return_types.empty() &&
-        !instantiated->return_type_name.empty()) {
-        TypeInfo declared = resolve_substituted_type_info(
-            instantiated->return_type_name, TYPE_UNKNOWN);
-        if (declared != TYPE_UNKNOWN) {
-            instantiated->return_types.assign(1, declared);
-        }
-    }
+    rebuild_declared_return_type(func, instantiated.get());
 
     // ジェネリックフラグをクリア（インスタンス化済み）
     instantiated->is_generic = false;
     instantiated->type_parameters.clear();
 
+    return instantiated;
+}
+
+// ジェネリックimplブロックのメソッドを1つの型引数の組に対してインスタンス化
+std::unique_ptr<ASTNode> instantiate_generic_impl_method(
+    const ASTNode *method, const std::map<std::string, std::string> &type_map) {
+    if (!method) {
+        return nullptr;
+    }
+    // Every instantiation owns its copy of the method: parameters, locals and
+    // the return type are declared with the substituted types, exactly as in
+    // a hand-written impl for the concrete struct.  (The method's own type
+    // parameters, if any, stay generic.)
+    auto instantiated = clone_ast_node(method);
+    substitute_type_parameters(instantiated.get(), type_map);
+    rebuild_declared_return_type(method, instantiated.get());
     return instantiated;
 }
 
